@@ -304,7 +304,7 @@ func runWire(t *testing.T, s *Scenario) (evs []wire.Event) {
 		synctest.Wait()
 		g, sample := repoGoroutines()
 		opened, once, bad := w.HandleSummary()
-		ret = append(ret, "goroutines", g, "gsample", sample, "opened", opened, "closed_once", once, "bad_handles", bad, "accepts", w.Accepts)
+		ret = append(ret, "goroutines", g, "gsample", sample, "opened", opened, "closed_once", once, "bad_handles", bad, "accepts", w.Accepts, "flood_delivered", w.FloodDelivered)
 		w.LogEvent("Return", ret...)
 		evs = w.Events()
 	})
